@@ -351,6 +351,14 @@ func (t *Terms) load(u *ssa.UnOp) string {
 		}
 		return "load(" + a.Name() + ")@" + u.Name()
 	case *ssa.FieldAddr:
+		// field of a local struct variable that is written exactly once as a
+		// whole (res := <-ch; res.err): the field of the stored value
+		if al, ok := a.X.(*ssa.Alloc); ok {
+			if sv := t.wholeStore(al); sv != nil {
+				st := deref(al.Type()).Underlying().(*types.Struct)
+				return t.Of(sv) + "." + st.Field(a.Field).Name()
+			}
+		}
 		path := t.fieldPath(a)
 		if stableField(path) {
 			return path
@@ -365,6 +373,43 @@ func (t *Terms) load(u *ssa.UnOp) string {
 		return "*fv:" + a.Name() + "@" + u.Name()
 	}
 	return "*" + t.Of(u.X) + "@" + u.Name()
+}
+
+// wholeStore returns the single value stored to a local struct alloc whose
+// other uses are only field reads (FieldAddr + load) and whole loads.
+func (t *Terms) wholeStore(a *ssa.Alloc) ssa.Value {
+	if _, ok := deref(a.Type()).Underlying().(*types.Struct); !ok || a.Referrers() == nil {
+		return nil
+	}
+	var stored ssa.Value
+	n := 0
+	for _, r := range *a.Referrers() {
+		switch r := r.(type) {
+		case *ssa.Store:
+			if r.Addr != a {
+				return nil
+			}
+			stored = r.Val
+			n++
+		case *ssa.FieldAddr:
+			if r.Referrers() != nil {
+				for _, rr := range *r.Referrers() {
+					switch rr.(type) {
+					case *ssa.UnOp, *ssa.DebugRef:
+					default:
+						return nil // field written or address escapes
+					}
+				}
+			}
+		case *ssa.UnOp, *ssa.DebugRef:
+		default:
+			return nil
+		}
+	}
+	if n != 1 {
+		return nil
+	}
+	return stored
 }
 
 func (t *Terms) writtenThroughIndex(x ssa.Value) bool {
